@@ -139,6 +139,14 @@ def judge_xml(ctx, data: bytes, clazz, fault, w0, original=None):
                 ctx.violation(f"leaks-lenient/{type(val2).__name__}/{fault.split(':')[0]}/{handler}/{bc.short_exc(val2)[:90]}", f"all fail_on_* options off: {type(val2).__name__}: {val2}\nfault={fault}\n{data[:1200]!r}", w)
             elif st2 == "watchdog":
                 ctx.inconc(f"watchdog fired (lenient) for a {len(data)}-byte input ({fault})")
+        if zlib.crc32(data) % 8 == 1:  # the same input without a target class: the parser locates the class by the root name
+            st3, val3, _ = run_xml(data, None, handler)
+            ctx.evals()
+            ctx.feature("config:no-target-class")
+            if st3 == "leak":
+                ctx.violation(f"leaks-no-class/{type(val3).__name__}/{fault.split(':')[0]}/{handler}/{bc.short_exc(val3)[:90]}", f"no target class: {type(val3).__name__}: {val3}\nfault={fault}\n{data[:1200]!r}", w)
+            elif st3 == "watchdog":
+                ctx.inconc(f"watchdog fired (no target class) for a {len(data)}-byte input ({fault})")
         if st == "watchdog":
             ctx.inconc(f"watchdog fired for a {len(data)}-byte input ({fault})")
         elif st == "leak":
@@ -330,6 +338,8 @@ def judge_json(ctx, payload, clazz, fault, w0, via):
             ctx.feature("json:not-json-rejected-by-load-factory")
             return
         ctx.violation(f"leaks/{type(val).__name__}/{fault.split(':')[0]}/{via}/{bc.short_exc(val)[:90]}", f"{type(val).__name__}: {val}\nfault={fault}\n{str(key)[:1200]}", w)
+    elif st == "ok" and clazz is None:
+        ctx.feature("json:class-located-by-keys")
     elif st == "ok":
         want = clazz
         if isinstance(val, list):
@@ -398,6 +408,11 @@ def check_json(ctx, model, style, loaded, obj, seed):
         ctx.feature("fault:json-wrong-root")
         for via in ("dict", "json"):
             judge_json(ctx, root if via == "dict" else json.dumps(root).encode(), clazz, "wrong-root", w0, via)
+    # without a target class the decoder locates the class from the keys of the document
+    for root in (enc, [enc], [], [enc, 5], [5, enc], [[enc]], [[1]], 5, 0, "str", "", None, True, 1.5, [1], ["a"], [None], {"unknown": 1}, {}, [{}], [enc, {"unknown": 1}]):
+        ctx.feature("fault:json-no-target-class")
+        for via in ("dict", "json"):
+            judge_json(ctx, root if via == "dict" else json.dumps(root).encode(), None, "no-class-root", w0, via)
 
 
 def check_random_bytes(ctx, seed, clazz_case):
